@@ -235,9 +235,23 @@ fn base_archives(rng: &mut Rng) -> Vec<(String, Vec<u8>)> {
     ]
 }
 
-pub fn drive(seed: u64, tier: &str, stim: Option<&str>, workdir: &str, out: &mut Out) {
+pub fn drive(seed: u64, tier: &str, stim: Option<&str>, stim2: Option<&str>, workdir: &str, out: &mut Out) {
     let mut rng = Rng::new(seed ^ 0x4d414c);
     let mut inputs: Vec<Input> = Vec::new();
+    // 0. exhaustive small scope enumerated by TLC: directories of 1-2 entries over boundary tokens (strided in quick)
+    if let Some(p) = stim2 {
+        let stride = if tier == "thorough" { 1 } else { 9 };
+        for (i, line) in std::fs::read_to_string(p).expect("stim2").lines().enumerate() {
+            if (i as u64 + seed) % stride != 0 {
+                continue;
+            }
+            let Ok(v) = serde_json::from_str::<Value>(line) else { continue };
+            let root = json_bytes(&v["root"]);
+            let leaves: Vec<Vec<u8>> = v["leaves"].as_array().map_or(vec![], |a| a.iter().map(json_bytes).collect());
+            let plain = plain_archive(&root, &leaves, 1, &json!({}));
+            inputs.push(Input { class: "tokens".to_string(), bytes: plain.clone(), plain: Some(plain) });
+        }
+    }
     // 1. one crafted archive per hazard class (TLC-composed directory bytes)
     if let Some(p) = stim {
         for line in std::fs::read_to_string(p).expect("stim").lines() {
